@@ -50,7 +50,7 @@ fn spec(t: Tier) -> Spec {
     Spec {
         id: "C20",
         level: "exploration",
-        rule: format!("every sequence of <= {l} input lines over {:?} x every list of 1..{a} initial arguments over {:?} x 10 spellings of the replace option (-I R, -IR, -i, -i=R, --replace, --replace=R; R in {{}}, R, %%, aab, {{{{}}}}) is run through the real xargs_main (hook H2 records each invocation): one run per non-empty line, in order, every occurrence of R in every initial argument replaced by the whole line, nothing appended, other arguments unchanged, empty input runs nothing with status 0; plus every ordered subset of {{replace, -n k, -L k}} (k in 1,2): the option given last decides the mode (-I with -n 1 is replace mode); non-trivial = case with at least one non-empty line and a template containing R; lines that are not valid UTF-8 (bytes ff, c3, f0 9f, e9) must be substituted byte for byte; scale slice: 600 lines (1..40 bytes with inner blanks and é, some empty, plus lines of 300, 1000, 4095..4097, 8191..8193 and 20000 bytes) substituted into one R, 20 arguments R, one argument holding R 1..12 times between literals, and an argument with 70000 + 40000 bytes of literal text around R (lines whose substitution would exceed 100 000 bytes in total are left out: that is C06's subject); binary slice through the xargs binary and a recorder child", LINES, TEMPL),
+        rule: format!("every sequence of <= {l} input lines over {:?} x every list of 1..{a} initial arguments over {:?} x 10 spellings of the replace option (-I R, -IR, -i, -i=R, --replace, --replace=R; R in {{}}, R, %%, aab, {{{{}}}}) is run through the real xargs_main (hook H2 records each invocation): one run per non-empty line, in order, every occurrence of R in every initial argument replaced by the whole line, nothing appended, other arguments unchanged, empty input runs nothing with status 0; plus every ordered subset of {{replace, -n k, -L k}} (k in 1,2): the option given last decides the mode (-I with -n 1 is replace mode); non-trivial = case with at least one non-empty line and a template containing R; every sequence of <= 3 lines that are not valid UTF-8 (bytes ff, fe, c3, f0 9f, e9, e8: pairs with the same lossy rendering) must be substituted byte for byte, each with its own bytes; scale slice: 600 lines (1..40 bytes with inner blanks and é, some empty, plus lines of 300, 1000, 4095..4097, 8191..8193 and 20000 bytes) substituted into one R, 20 arguments R, one argument holding R 1..12 times between literals, and an argument with 70000 + 40000 bytes of literal text around R (lines whose substitution would exceed 100 000 bytes in total are left out: that is C06's subject); binary slice through the xargs binary and a recorder child", LINES, TEMPL),
         bound: json!({"max_lines": l, "max_template_args": a}),
         assumptions: vec!["lines with quotes, backslashes or leading blanks are excluded by the statement".into()],
         shards: 0,
@@ -257,34 +257,60 @@ fn run(ctx: &mut Ctx) {
     }
     // lines that are not valid UTF-8 must be substituted byte for byte
     if ctx.shard == 0 {
-        let raw_lines: [&[u8]; 4] = [b"a\xffb", b"\xc3", b"x\xf0\x9f", b"\xe9t\xe9"];
-        for line in raw_lines {
+        // (sequences of such lines: two different lines may have the same lossy rendering)
+        let alpha: [&[u8]; 7] = [b"a\xffb", b"a\xfeb", b"\xc3", b"x\xf0\x9f", b"\xe9t\xe9", b"\xe8t\xe8", b"ab"];
+        let mut seqs: Vec<Vec<&[u8]>> = vec![];
+        for a in alpha {
+            seqs.push(vec![a]);
+            for b in alpha {
+                seqs.push(vec![a, b]);
+                for c in alpha {
+                    seqs.push(vec![a, b, c]);
+                }
+            }
+        }
+        for lines in &seqs {
             for (opts, r) in [(vec!["-I".to_string(), "{}".to_string()], "{}"), (vec!["-i".to_string()], "{}"), (vec!["-I".to_string(), "R".to_string()], "R")] {
                 for tp in [vec!["{}"], vec!["x{}y", "{}{}"], vec!["R", "aRb"]] {
-                    let mut input = line.to_vec();
-                    input.push(b'\n');
-                    let got = exec(&file, &opts, &tp, &input);
-                    let mut want_one = vec![b"cmd".to_vec()];
-                    for t in &tp {
-                        let parts: Vec<&str> = t.split(r).collect();
-                        let mut a = vec![];
-                        for (i, p) in parts.iter().enumerate() {
-                            if i > 0 {
-                                a.extend_from_slice(line);
-                            }
-                            a.extend_from_slice(p.as_bytes());
-                        }
-                        want_one.push(a);
+                    if lines.len() == 3 && (r == "R") != (tp[0] == "R") {
+                        continue;
                     }
-                    let want = vec![want_one];
+                    let mut input = vec![];
+                    let mut want = vec![];
+                    for line in lines {
+                        input.extend_from_slice(line);
+                        input.push(b'\n');
+                        let mut want_one = vec![b"cmd".to_vec()];
+                        for t in &tp {
+                            let parts: Vec<&str> = t.split(r).collect();
+                            let mut a = vec![];
+                            for (i, p) in parts.iter().enumerate() {
+                                if i > 0 {
+                                    a.extend_from_slice(line);
+                                }
+                                a.extend_from_slice(p.as_bytes());
+                            }
+                            want_one.push(a);
+                        }
+                        want.push(want_one);
+                    }
+                    let got = exec(&file, &opts, &tp, &input);
                     ctx.rep.evaluations += 1;
                     ctx.rep.nontrivial += 1;
+                    ctx.rep.count("non_utf8_line_sequences", 1);
                     if got.inv != want || got.code != Ok(0) {
                         let same_lossy = show(&got.inv) == show(&want);
+                        let first_bad = got.inv.iter().zip(&want).position(|(a, b)| a != b).unwrap_or(0);
                         ctx.rep.violation(
-                            if same_lossy { "C20 a line that is not valid UTF-8 is not substituted byte for byte (lossy conversion)" } else { "C20 replacement text wrong for a line that is not valid UTF-8" },
+                            if first_bad > 0 {
+                                "C20 a line that is not valid UTF-8 is substituted with the bytes of an earlier line"
+                            } else if same_lossy {
+                                "C20 a line that is not valid UTF-8 is not substituted byte for byte (lossy conversion)"
+                            } else {
+                                "C20 replacement text wrong for a line that is not valid UTF-8"
+                            },
                             format!("xargs {:?} cmd {:?} < {:?}\n expected {:?}\n actual   {:?} status {:?}", opts, tp, input, want, got.inv, got.code),
-                            json!({"prop":"C20","mode":"raw","opts":opts,"templ":tp,"line_hex":line.iter().map(|b| format!("{b:02x}")).collect::<String>()}),
+                            json!({"prop":"C20","mode":"raw","opts":opts,"templ":tp,"lines_hex":lines.iter().map(|l| l.iter().map(|b| format!("{b:02x}")).collect::<String>()).collect::<Vec<_>>()}),
                         );
                     }
                 }
@@ -431,6 +457,33 @@ fn replay(case: &Value, ctx: &mut Ctx) -> Option<String> {
     let opts: Vec<String> = case["opts"].as_array()?.iter().map(|v| v.as_str().unwrap_or("").to_string()).collect();
     let templ: Vec<String> = case["templ"].as_array()?.iter().map(|v| v.as_str().unwrap_or("").to_string()).collect();
     let tp: Vec<&str> = templ.iter().map(|s| s.as_str()).collect();
+    if case["mode"] == "raw" {
+        let unhex = |h: &str| -> Vec<u8> { (0..h.len() / 2).filter_map(|i| u8::from_str_radix(&h[2 * i..2 * i + 2], 16).ok()).collect() };
+        let lines: Vec<Vec<u8>> = match case["lines_hex"].as_array() {
+            Some(a) => a.iter().map(|v| unhex(v.as_str().unwrap_or(""))).collect(),
+            None => vec![unhex(case["line_hex"].as_str()?)],
+        };
+        let r = if opts.iter().any(|o| o == "R") { "R" } else { "{}" };
+        let mut input = vec![];
+        let mut want = vec![];
+        for line in &lines {
+            input.extend_from_slice(line);
+            input.push(b'\n');
+            let mut one = vec![b"cmd".to_vec()];
+            for t in &tp {
+                one.push(t.split(r).enumerate().flat_map(|(i, p)| if i > 0 { [line.as_slice(), p.as_bytes()].concat() } else { p.as_bytes().to_vec() }).collect());
+            }
+            want.push(one);
+        }
+        let got = exec(&file, &opts, &tp, &input);
+        println!("xargs {:?} cmd {:?} < {:?} -> {:?} status {:?}", opts, tp, input, got.inv, got.code);
+        if got.inv != want || got.code != Ok(0) {
+            let sig = "C20 replayed case (lines that are not valid UTF-8) still differs".to_string();
+            ctx.rep.violation(&sig, format!("expected {want:?}"), case.clone());
+            return Some(sig);
+        }
+        return None;
+    }
     let input = case["input"].as_str()?.as_bytes().to_vec();
     let got = exec(&file, &opts, &tp, &input);
     println!("xargs {:?} cmd {:?} < {:?} -> {} status {:?}", opts, tp, String::from_utf8_lossy(&input), show(&got.inv), got.code);
